@@ -177,7 +177,7 @@ def run(rep, work, tier, seed, props, replay=None):
         st = builders[i].stmts
         return sum(1 for x in st if x["op"] == "backward") == 1 and all((o is None) or st[j]["op"] == "fail" or st[j].get("expect") == "raise"
                                                                          for j, o in enumerate(results[i]["outcomes"]))
-    ok_idx = [i for i, r in enumerate(results) if progs.exact_safe(r) and i not in bad_set and single_epoch(i)]
+    ok_idx = [i for i, r in enumerate(results) if progs.exact_safe(r) and i not in bad_set and single_epoch(i) and not getattr(builders[i], "explicit_const_views", False)]
     owner = lambda nm, o: not o["has_base"]
     terms = []
     for i in ok_idx:
